@@ -126,9 +126,15 @@ func goBin() string {
 // build instruments repo into a scratch module and builds the test binary.
 func build(race bool) string {
 	var err error
-	scratch, err = os.MkdirTemp("", "vsim-")
-	if err != nil {
-		trouble("mktemp: %v", err)
+	// constant-length name (host paths appear in Ufs error texts; their length must not change between runs)
+	for i := 0; ; i++ {
+		scratch = filepath.Join(os.TempDir(), fmt.Sprintf("vsim-%08d-%03d", os.Getpid()%100000000, i))
+		if err = os.Mkdir(scratch, 0o700); err == nil {
+			break
+		}
+		if i > 900 {
+			trouble("mktemp: %v", err)
+		}
 	}
 	inst := filepath.Join(*fVerif, "bin", "instrument")
 	if _, err := os.Stat(inst); err != nil {
